@@ -1,0 +1,17 @@
+//go:build !verif
+
+package genetics
+
+// No-op variants of the verification hooks (see verif_hooks_on.go). The compiler inlines them away.
+
+func verifSpawn(int) {}
+
+func verifBegin(int) {}
+
+func verifEnd(int) {}
+
+func verifYield(string) {}
+
+func verifAwait() {}
+
+func verifObserve(string, *Population, []*Organism, []*Species) {}
